@@ -18,6 +18,7 @@ import (
 	"hash/fnv"
 	"math"
 	"os"
+	"path/filepath"
 	"runtime/debug"
 	"sort"
 	"strconv"
@@ -638,8 +639,37 @@ func flush(code int) error {
 func Replay(t *testing.T) {
 	path := os.Getenv("VERIF_REPLAY")
 	if path == "" {
-		t.Skip("no VERIF_REPLAY")
+		replayCorpus(t)
+		return
 	}
+	replayFile(t, path, false)
+}
+
+// replayCorpus runs every saved regression case of the property (the files of
+// VERIF_CORPUS: shrunk failures from the mutant self-test, the seeded changes
+// and the defects of the pinned tree) through its check, in shard 0 only.
+// These are plain regression checks that bypass every generator.
+func replayCorpus(t *testing.T) {
+	dir := os.Getenv("VERIF_CORPUS")
+	if dir == "" || Shard() != 0 {
+		t.Skip("no VERIF_REPLAY / VERIF_CORPUS")
+	}
+	ents, err := os.ReadDir(dir)
+	if err != nil {
+		t.Skip("no corpus directory")
+	}
+	n := 0
+	for _, e := range ents {
+		if e.IsDir() || !strings.HasSuffix(e.Name(), ".json") {
+			continue
+		}
+		replayFile(t, filepath.Join(dir, e.Name()), true)
+		n++
+	}
+	Note("regression_corpus_cases", n)
+}
+
+func replayFile(t *testing.T, path string, corpus bool) {
 	b, err := os.ReadFile(path)
 	if err != nil {
 		t.Fatalf("replay: %v", err)
@@ -660,8 +690,13 @@ func Replay(t *testing.T) {
 	col.mu.Lock()
 	col.evals++
 	col.perCheck[v.Check]++
+	if corpus {
+		col.classes["regression-corpus"]++
+	}
 	col.mu.Unlock()
-	col.addSample(v.Check, v.Case, 0, 1)
+	if !corpus {
+		col.addSample(v.Check, v.Case, 0, 1)
+	}
 	if out.Known != "" && out.Err == nil {
 		if KnownListed(col.property, out.Known) {
 			col.mu.Lock()
@@ -676,7 +711,7 @@ func Replay(t *testing.T) {
 		col.mu.Lock()
 		col.violations = append(col.violations, violation{Check: v.Check, Case: v.Case, Error: out.Err.Error()})
 		col.mu.Unlock()
-		t.Fatalf("replayed case violates %s: %v", v.Check, out.Err)
+		t.Fatalf("replayed case %s violates %s: %v", filepath.Base(path), v.Check, out.Err)
 	}
 }
 
